@@ -645,6 +645,40 @@ func genTree(r *rand.Rand) *rawCfg {
 	return c
 }
 
+// legacyMix rewrites (in a quarter of the configurations) the matchers of one non-root route so that it combines the
+// deprecated `match` / `match_re` with 3, 5, 6 or 7 `matchers` lines (a slice grown by appends has spare capacity at those
+// lengths), the converted deprecated entry sorting before the last new-style matcher.  It draws from its own PRNG so that
+// the configurations of genTree stay what they were.
+func legacyMix(r *rand.Rand, c *rawCfg) {
+	if c.root == nil || r.IntN(4) != 0 {
+		return
+	}
+	var ns []*node
+	allNodes(c.root, &ns)
+	if len(ns) < 2 {
+		return
+	}
+	n := ns[1+r.IntN(len(ns)-1)]
+	k := pick(r, []int{3, 5, 6, 7})
+	n.matchers, n.match, n.matchRE = nil, nil, nil
+	for i := range k {
+		name := pick(r, labelPool)
+		if i == 0 {
+			name = pick(r, labelPool[3:]) // team / severity: after every name the deprecated entry can have
+		}
+		if i%2 == 0 {
+			n.matchers = append(n.matchers, fmt.Sprintf("%s=\"v%d\"", name, i))
+		} else {
+			n.matchers = append(n.matchers, fmt.Sprintf("%s=~\"x%d.*\"", name, i))
+		}
+	}
+	if r.IntN(2) == 0 {
+		n.match = map[string]string{pick(r, labelPool[:3]): "m"}
+	} else {
+		n.matchRE = map[string]string{pick(r, labelPool[:3]): "m.*"}
+	}
+}
+
 // genCleanLike returns a fault-free configuration (for stand-alone decode faults).
 func genCleanLike(c *rawCfg) *rawCfg {
 	c2 := &rawCfg{recvs: []rawRecv{{name: "recv0", hasName: true}}, tis: []string{"ti0"}}
